@@ -16,7 +16,7 @@ from checks.common import *  # noqa
 
 PROPERTY = "C08"
 OPS = ("open_rx0_5", "open_rx0_3", "close_rx0", "open_tx_5", "open_tx_3", "aa_on", "aa_off", "aa0_on", "aa0_off",
-       "listen_on", "listen_off")
+       "listen_on", "listen_off", "open_rx1")
 
 
 def h_history(ctx, first, depth, aw, driver="full", ops=OPS):
@@ -37,6 +37,8 @@ def h_history(ctx, first, depth, aw, driver="full", ops=OPS):
             a = ctx.bytes("rx%d" % step, int(op[-1]))
             nrf.open_rx_pipe(0, a)
             ghost = blist(a)
+        elif op == "open_rx1":  # another pipe in use (pipe 0 logic must not depend on it)
+            nrf.open_rx_pipe(1, ctx.bytes("rx1_%d" % step, 5))
         elif op == "close_rx0":
             nrf.close_rx_pipe(0)
             ghost = None
@@ -124,12 +126,12 @@ def jobs(tier):
 
 
 META = {
-    "bounds": {"quick": "all 11^4 call histories of depth 4 at address_length 5 and all 11^3 of depth 3 at address_length 3 and 4, the depth-5 histories "
+    "bounds": {"quick": "all 12^4 call histories of depth 4 at address_length 5 and all 12^3 of depth 3 at address_length 3 and 4, the depth-5 histories "
                         "that start with open_rx_pipe(0, .), open_tx_pipe(.), "
                         "over the alphabet open_rx_pipe(0, 5 or 3 symbolic "
                         "bytes), close_rx_pipe(0), open_tx_pipe(5 or 3 symbolic bytes), auto_ack True/False, set_auto_ack(., 0), "
-                        "listen True/False",
-               "thorough": "all 11^5 histories of depth 5 at address_length 5 and all 11^4 at address_length 3 and 4"},
+                        "listen True/False, open_rx_pipe(1, .)",
+               "thorough": "all 12^5 histories of depth 5 at address_length 5 and all 12^4 at address_length 3 and 4"},
     "outside": ["pipes 1-5 (untouched by role switching)", "histories deeper than 5",
                 "bytes of RX_ADDR_P0 beyond the length of the address the user supplied (an address shorter than "
                 "address_length keeps whatever tail the register holds; the statement's 'the address the user opened it with' is "
